@@ -131,6 +131,14 @@ def hex_factory(ns, private):
                     obs.append(oblige(eng, 'to_hex(from_hex(s)) succeeds', True, mk))
                 else:
                     obs.append(oblige(eng, 'to_hex(from_hex(s)) == s', z3.Not(val_eq(it, None, hx[1], s)), mk))
+                # the same 32 bytes are a legal value for the other kind of key too: converting them there, in the same process,
+                # gives a key of THAT kind (private and public keys never stand in for each other)
+                O = C.PublicKey if private else C.PrivateKey
+                other = run_call(it, O.from_hex, [arg])
+                again = run_call(it, K.from_hex, [arg])
+                kinds_ok = is_ret(other) and is_ret(again) and isinstance(other[1], KeyObj) and isinstance(again[1], KeyObj) and other[1].private == (not private) and again[1].private == private
+                if not kinds_ok:
+                    obs.append(oblige(eng, 'from_hex gives a key object of the class it was called on, whatever was converted before', True, mk))
             else:
                 obs.append(oblige(eng, 'from_hex accepts every canonical key string', good, mk))
                 if not documented(out):
@@ -288,6 +296,16 @@ def concrete(case):
                 probs.append(f'from_hex accepted the malformed key encoding {arg!r:.80}')
             elif K.to_hex(K.from_hex(arg)) != arg:
                 probs.append('to_hex(from_hex(s)) != s')
+            else:
+                from cryptography.hazmat.primitives.asymmetric import ed25519 as _ed
+                O = C.PublicKey if case['private'] else C.PrivateKey
+                want = {True: _ed.Ed25519PrivateKey, False: _ed.Ed25519PublicKey}
+                try:
+                    other, again = O.from_hex(arg), K.from_hex(arg)
+                    if not isinstance(other, want[not case['private']]) or not isinstance(again, want[case['private']]):
+                        probs.append(f'from_hex of {O.__name__} / {K.__name__} on the same string returned {type(other).__name__} / {type(again).__name__}')
+                except Exception as e:
+                    probs.append(f'converting the same 64 hex characters as the other kind of key raised {type(e).__name__}')
         else:
             if good:
                 probs.append(f'canonical key string rejected: {oc["cls"]}')
